@@ -329,6 +329,24 @@ def gen_history(rng, cfg=None):
                     if not u_.get('reuse') and 'wm_of' not in u_:
                         u_['watermark'] = rng.choice([0, 1, 40])
                         u_['force'] = True
+    if rng.random() < cfg.get('p_alike_valid', 0.06):
+        # a data file that merely LOOKS like a Manifest - `Manifest.orig.gz`, `Manifest-2020.bz2`: none of the five Manifest
+        # names, referenced by nothing - and whose bytes are a well-formed compressed Manifest (a backup copy, an empty one);
+        # a new file arrives beside it and the update is forced: the look-alike stays a data file, untouched
+        import base64, bz2, gzip, lzma
+        vis = [d_ for d_ in info['dirs'] if d_ and not any(c.startswith('.') for c in d_.split('/'))]
+        if vis:
+            d_ = rng.choice(vis)
+            nm_ = rng.choice(['Manifest.orig.gz', 'Manifest-2020.bz2', 'Manifest.old.xz', 'Manifest.bak.lzma', 'Manifest.1.gz'])
+            txt_ = rng.choice(['', 'DATA zz-nothing 1\n', 'IGNORE zz-nothing\n']).encode()
+            raw_ = {'gz': lambda b: gzip.compress(b, mtime=0), 'bz2': bz2.compress, 'xz': lambda b: lzma.compress(b, format=lzma.FORMAT_XZ),
+                    'lzma': lambda b: lzma.compress(b, format=lzma.FORMAT_ALONE)}[nm_.rsplit('.', 1)[1]](txt_)
+            if not any(t['p'] == d_ + '/' + nm_ for t in tree) and not any(m['p'] == d_ + '/' + nm_ for m in manifests):
+                tree = tree + [{'p': d_ + '/' + nm_, 'k': 'file', 'b64': base64.b64encode(raw_).decode()}]
+                rnd = rng.choice(rounds)
+                rnd['edits'] = list(rnd['edits']) + [{'m': 'add', 'p': d_ + '/fresh-beside-lookalike', 'k': 'file', 'c': 'fresh'}]
+                if not rnd['update'].get('reuse'):
+                    rnd['update']['force'] = True
     # the targeted steps above may have changed the options of a round after a later round copied them for its reused
     # loader: a reused loader has the constructor options of the round that created it
     for i_ in range(1, len(rounds)):
